@@ -180,6 +180,8 @@ def lambdas():
         "fn main() { let s = 0; for i in 0..3 { let f = fn(k: int) -> int { let g = fn(m: int) -> int { m + 1 }; g(k) * 2 }; s += f(i); } println(s); }",
         "fn rec(n: int) -> int { let step = fn(k: int) -> int { k - 1 }; if n <= 0 { 0 } else { 1 + rec(step(n)) } } fn main() { println(rec(5)); }",
         "fn main() { let f = fn() -> fn() -> int { fn() -> int { 9 } }; let g = f(); println(g(), f()()); let h = fn() -> int { 8 }; println(h()); }",
+        # function values print and compare the same on both backends
+        "fn g() -> int { 2 } fn main() { let f = fn() -> int { 1 }; println(f); println(g); println([f, g]); let o = new { h: f }; println(o); println(f == f, f == g, g != g); println(println); }",
     ]
 
 
